@@ -2106,6 +2106,9 @@ def _canonical_foreach(mods: dict[str, Module], log: list[str]) -> None:
                         if isinstance(st, ast.While) and isinstance(st.test, ast.Compare) and len(st.test.ops) == 1 and isinstance(st.test.ops[0], ast.Gt) \
                                 and isinstance(st.test.comparators[0], ast.Name) and not isinstance(st.test.left, ast.Name):
                             st.test = ast.copy_location(ast.Compare(left=st.test.comparators[0], ops=[ast.Lt()], comparators=[st.test.left]), st.test)     # `n > i` is `i < n`
+                        if isinstance(st, ast.While) and isinstance(st.test, ast.Compare) and len(st.test.ops) == 1 and isinstance(st.test.ops[0], ast.LtE) and isinstance(st.test.left, ast.Name) \
+                                and isinstance(st.test.comparators[0], ast.Constant) and type(st.test.comparators[0].value) is int:
+                            st.test = ast.copy_location(ast.Compare(left=st.test.left, ops=[ast.Lt()], comparators=[ast.Constant(value=st.test.comparators[0].value + 1)]), st.test)  # i <= 5 is i < 6
                         if isinstance(st, ast.While) and not st.orelse and isinstance(st.test, ast.Compare) and len(st.test.ops) == 1 and isinstance(st.test.ops[0], ast.Lt) \
                                 and isinstance(st.test.left, ast.Name) and st.body and not any(isinstance(x, (ast.Break, ast.Continue, ast.Return)) for x in ast.walk(st)):
                             iv = st.test.left.id
